@@ -35,7 +35,12 @@ func c19Build(args []string) int {
 	}
 	cwd, _ := os.Getwd()
 	xctx := gbuild.NewBuildContext(s.InstallSuffix(), opts.BuildTags)
-	pkg, err := xctx.Import(".", cwd, 0)
+	pkgs, err := xctx.Match([]string{"."})
+	if err != nil || len(pkgs) != 1 {
+		fmt.Fprintln(os.Stderr, "cannot expand package pattern .", pkgs, err)
+		return 1
+	}
+	pkg, err := xctx.Import(pkgs[0], cwd, 0)
 	if err != nil {
 		fmt.Fprintln(os.Stderr, err)
 		return 1
